@@ -114,6 +114,8 @@ type Interp struct {
 	trace      bool
 	callStack  []*ssa.Function
 	nAsserts   int64
+	symFmtInts bool
+	symParts   []Str
 	curInitPkg *ssa.Package
 }
 
@@ -926,7 +928,7 @@ func (in *Interp) floatToInt(x *Term, tw uint8, tsigned bool) Value {
 	} else {
 		conv = tConv(OpFToU, x, SBV, tw)
 	}
-	fresh := in.freshVar("f2i", SBV, tw)
+	fresh := in.freshVar("_f2i", SBV, tw)
 	in.stubsHit["float->int out of range = unconstrained value"] = true
 	return tIte(inr, conv, fresh)
 }
@@ -1436,6 +1438,46 @@ func (in *Interp) indexOp(fr *Frame, x *ssa.Index) Value {
 	panic(fmt.Sprintf("engine: Index on %T", base))
 }
 
+// tSubSimp is hi-lo with the (x+c)-x and (x+c1)-(x+c2) patterns folded.
+func tSubSimp(hi, lo *Term) *Term {
+	split := func(t *Term) (*Term, uint64) {
+		if t.op == OpAdd {
+			if t.args[1].IsConst() {
+				return t.args[0], t.args[1].val
+			}
+			if t.args[0].IsConst() {
+				return t.args[1], t.args[0].val
+			}
+		}
+		return t, 0
+	}
+	if hi.IsConst() && lo.IsConst() {
+		return tBin(OpSub, hi, lo)
+	}
+	hb, hc := split(hi)
+	lb, lc := split(lo)
+	if hb == lb {
+		return mkBV(64, hc-lc)
+	}
+	return tBin(OpSub, hi, lo)
+}
+
+func (in *Interp) strIndexNoCheck(s Str, idx *Term) *Term {
+	n := s.Len()
+	if idx.IsConst() {
+		return s.At(int(idx.val))
+	}
+	res := s.At(n - 1)
+	for i := n - 2; i >= 0; i-- {
+		c := s.At(i)
+		if sameTerm(c, res) {
+			continue
+		}
+		res = tIte(tEq(idx, mkBV(64, uint64(i))), c, res)
+	}
+	return res
+}
+
 func (in *Interp) strIndex(s Str, idx *Term) Value {
 	n := s.Len()
 	in.checkIndex(idx, n, "string index")
@@ -1464,6 +1506,38 @@ func (in *Interp) sliceOp(fr *Frame, x *ssa.Slice) Value {
 			panic(inconclusive("symbolic slice bound in " + fr.fn.String()))
 		}
 		return int(sext64(t.val, t.w))
+	}
+	if b, ok := base.(Str); ok {
+		// symbolic window of constant width (e.g. strconv's digits[i:i+1])
+		var lo, hi *Term
+		if x.Low != nil {
+			lo = idx64(x.Low.Type(), fr.get(in, x.Low).(*Term))
+		}
+		if x.High != nil {
+			hi = idx64(x.High.Type(), fr.get(in, x.High).(*Term))
+		}
+		if (lo != nil && !lo.IsConst()) || (hi != nil && !hi.IsConst()) {
+			if lo == nil {
+				lo = mkBV(64, 0)
+			}
+			if hi == nil {
+				hi = mkBV(64, uint64(b.Len()))
+			}
+			d := tSubSimp(hi, lo)
+			if !d.IsConst() {
+				panic(inconclusive("string slice with symbolic width in " + fr.fn.String()))
+			}
+			k := int(sext64(d.val, 64))
+			if k < 0 || k > b.Len() {
+				panic(in.rtPanic("slice bounds out of range"))
+			}
+			in.checkIndex(lo, b.Len()-k+1, "slice")
+			bs := make([]*Term, k)
+			for j := 0; j < k; j++ {
+				bs[j] = in.strIndexNoCheck(b, tBin(OpAdd, lo, mkBV(64, uint64(j))))
+			}
+			return Str{sym: bs}.Norm()
+		}
 	}
 	switch b := base.(type) {
 	case Str:
